@@ -7,7 +7,14 @@
 //!   `store <fnv of Serialize::serialize bytes> <len>`
 //!                                         `Serialize::store` to a file; reply = fnv/len of the file
 //!   `payload <schema> <hdrlen> <fields…>` reply `ok <hex of the bytes after the ε-serde header>`;
-//!                                         the Lean layout model recomputes them from the fields
+//!                                         the Lean layout model recomputes them from the fields.
+//!                                         `<schema>` = `+`-joined layer names (wrapped structure first),
+//!                                         `<fields…>` = the field tuple of the REAL instance read through
+//!                                         the `sux_verif` accessors (trait `Flds`); the Lean side parses
+//!                                         the tuple into its MODEL states through the bridges of
+//!                                         `SuxModel/Serde/Bridges.lean` and lays it out again before
+//!                                         encoding.  Every type of this runner has a payload op
+//!                                         (files above 40 000 bytes excepted).
 //!   `load <loader> <expected…>`           load with `<loader>` and run the battery; reply
 //!                                         `ok <digest> <#answers>`; `<expected…>` is the reply
 //!                                         predicted from the ORIGINAL instance (the Lean side
@@ -440,7 +447,7 @@ macro_rules! rs_subject {
         subject!($t, (), |x, k, a| {
             q_bits(x, &mut a);
             caps!(x, a; $($cap)*);
-        });
+        }, |s| Some(flds_of(s)));
     };
     // capabilities of the type itself; capabilities of its ε-copy type
     ($t:ty; $($cap:ident)*; eps $($ecap:ident)*) => {
@@ -450,7 +457,7 @@ macro_rules! rs_subject {
         }, {
             q_bits(x, &mut a);
             caps!(x, a; $($ecap)*);
-        }, |_s| None, true);
+        }, |s| Some(flds_of(s)), true);
     };
     ($t:ty; $($cap:ident)*; |$s:ident| $fields:expr) => {
         subject!($t, (), |x, k, a| {
@@ -519,6 +526,127 @@ fn bfv_fields<W: Word + std::fmt::Display, B: AsRef<[W]>>(b: &BitFieldVec<W, B>)
         mask,
         BitFieldSliceCore::<W>::len(b)
     )
+}
+
+/// Field tuple of a (nested) structure, layer by layer: the wrapped structure is the first field of
+/// every wrapper, so its fields come first.  The schema is the `+`-joined list of the layer names
+/// (`Serde/Runner.lean`, `layerOf`); every layer has a bridge to the model structure on the Lean side.
+/// The private fields are read through the `#[cfg(sux_verif)]` accessors of /repo.  No accessor
+/// exists for: `BitFieldVec::mask`, `SelectAdapt::ones_per_inventory_mask` / `ones_per_sub16_mask`
+/// (recomputed here from the widths: the comparison with the real bytes checks the recomputation)
+/// and the fields of the `ShardEdge` structs (read off their `Debug` rendering).
+trait Flds {
+    fn flds(&self, out: &mut Vec<(String, String)>);
+}
+
+fn flds_of<T: Flds>(t: &T) -> (String, String) {
+    let mut v = vec![];
+    t.flds(&mut v);
+    (
+        v.iter().map(|x| x.0.clone()).collect::<Vec<_>>().join("+"),
+        v.iter().map(|x| x.1.clone()).filter(|x| !x.is_empty()).collect::<Vec<_>>().join(" "),
+    )
+}
+
+impl<B: AsRef<[usize]>> Flds for BitVec<B> {
+    fn flds(&self, out: &mut Vec<(String, String)>) {
+        out.push(("bv".into(), bv_fields(self)));
+    }
+}
+impl Flds for AddNumBits<BV> {
+    fn flds(&self, out: &mut Vec<(String, String)>) {
+        // AddNumBits { bits, number_of_ones }: no accessor to `bits`; words and length are delegated
+        out.push(("bv".into(), bits_fields(self)));
+        out.push(("u8".into(), format!("u8:{}", self.num_ones())));
+    }
+}
+impl<B: AsRef<[usize]>> Flds for Rank9<BitVec<B>> {
+    fn flds(&self, out: &mut Vec<(String, String)>) {
+        let c = self.verif_counts();
+        out.push(("bv".into(), bits_fields(self)));
+        out.push(("r9c".into(), format!("r8+8:{}", fmt_list(c.iter().flat_map(|x| [x.0, x.1])))));
+    }
+}
+impl<const N: usize, const W: usize> Flds for RankSmall<N, W, BV> {
+    fn flds(&self, out: &mut Vec<(String, String)>) {
+        let (u, c, n) = self.verif_parts();
+        let comp: Vec<String> = std::iter::repeat("4".to_string()).take(N + 1).collect();
+        out.push(("bv".into(), bits_fields(self)));
+        out.push((
+            format!("rsm{}", N),
+            format!(
+                "s8:{} r{}:{} u8:{}",
+                fmt_list(u.iter()),
+                comp.join("+"),
+                fmt_list(c.iter().flat_map(|x| std::iter::once(x.0).chain(x.1.iter().copied()))),
+                n
+            ),
+        ));
+    }
+}
+impl<R: Flds> Flds for Select9<R> {
+    fn flds(&self, out: &mut Vec<(String, String)>) {
+        self.verif_inner().flds(out);
+        let (inv, sub, isz, ssz) = self.verif_parts();
+        out.push(("s9".into(), format!("s8:{} s8:{} u8:{} u8:{}", fmt_list(inv.iter()), fmt_list(sub.iter()), isz, ssz)));
+    }
+}
+fn adapt_own(name: &str, p: (&[usize], &[usize], usize, usize, usize)) -> (String, String) {
+    let (inv, spill, l, s16, m) = p;
+    // the two mask fields have no accessor: `ones_per_inventory - 1`, `ones_per_sub16 - 1`
+    (
+        name.into(),
+        format!(
+            "s8:{} s8:{} u8:{} u8:{} u8:{} u8:{} u8:{}",
+            fmt_list(inv.iter()),
+            fmt_list(spill.iter()),
+            l,
+            s16,
+            m,
+            (1u128 << l) - 1,
+            (1u128 << s16) - 1
+        ),
+    )
+}
+impl<B: Flds> Flds for SelectAdapt<B> {
+    fn flds(&self, out: &mut Vec<(String, String)>) {
+        self.verif_inner().flds(out);
+        out.push(adapt_own("sa", self.verif_parts()));
+    }
+}
+impl<B: Flds> Flds for SelectZeroAdapt<B> {
+    fn flds(&self, out: &mut Vec<(String, String)>) {
+        self.verif_inner().flds(out);
+        out.push(adapt_own("sza", self.verif_parts()));
+    }
+}
+impl<B: Flds, const L: usize, const M: usize> Flds for SelectAdaptConst<B, Box<[usize]>, L, M> {
+    fn flds(&self, out: &mut Vec<(String, String)>) {
+        self.verif_inner().flds(out);
+        let (inv, spill) = self.verif_parts();
+        out.push(("sac".into(), format!("s8:{} s8:{}", fmt_list(inv.iter()), fmt_list(spill.iter()))));
+    }
+}
+impl<B: Flds, const L: usize, const M: usize> Flds for SelectZeroAdaptConst<B, Box<[usize]>, L, M> {
+    fn flds(&self, out: &mut Vec<(String, String)>) {
+        self.verif_inner().flds(out);
+        let (inv, spill) = self.verif_parts();
+        out.push(("sac".into(), format!("s8:{} s8:{}", fmt_list(inv.iter()), fmt_list(spill.iter()))));
+    }
+}
+impl<C: Flds, const N: usize, const W: usize> Flds for SelectSmall<N, W, C> {
+    fn flds(&self, out: &mut Vec<(String, String)>) {
+        self.verif_inner().flds(out);
+        let (inv, beg, l) = self.verif_parts();
+        out.push(("ss".into(), format!("s4:{} s8:{} u8:{}", fmt_list(inv.iter()), fmt_list(beg.iter()), l)));
+    }
+}
+impl<C: Flds, const N: usize, const W: usize> Flds for SelectZeroSmall<N, W, C> {
+    fn flds(&self, out: &mut Vec<(String, String)>) {
+        self.verif_inner().flds(out);
+        let (inv, beg, l) = self.verif_parts();
+        out.push(("ss".into(), format!("s4:{} s8:{} u8:{}", fmt_list(inv.iter()), fmt_list(beg.iter()), l)));
+    }
 }
 
 subject!(BV, (), |x, k, a| { q_bitvec(x, &mut a) }, |s| Some(("bv".into(), bv_fields(s))));
@@ -762,20 +890,35 @@ fn ef_fields(e: &EfPlain) -> String {
 }
 
 subject!(EfPlain, (), |x, k, a| { q_ef_base(x, &mut a) }, |s| Some(("ef".into(), ef_fields(s))));
+/// EliasFano { n, u, l, low_bits, high_bits } with a selection structure over the upper bits: the
+/// layers of `high_bits` (bit vector first, then the inventories) follow
+fn ef_sel_fields<H: Flds, B: AsRef<[usize]>>(e: &EliasFano<H, BitFieldVec<usize, B>>) -> (String, String) {
+    let (n, u, l, low, high) = e.verif_parts();
+    let mut v = vec![
+        ("efh".to_string(), format!("u8:{} u8:{} u8:{}", n, u, l)),
+        ("bfv8".to_string(), bfv_fields(low)),
+    ];
+    high.flds(&mut v);
+    (
+        v.iter().map(|x| x.0.clone()).collect::<Vec<_>>().join("+"),
+        v.iter().map(|x| x.1.clone()).collect::<Vec<_>>().join(" "),
+    )
+}
+
 subject!(EfSeq, (), |x, k, a| {
     q_ef_base(x, &mut a);
     q_ef_seq(x, &mut a);
-});
+}, |s| Some(ef_sel_fields(s)));
 subject!(EfDict, (), |x, k, a| {
     q_ef_base(x, &mut a);
     q_ef_dict(x, &mut a);
-});
+}, |s| Some(ef_sel_fields(s)));
 subject!(EfSeqDict, (), |x, k, a| {
     q_ef_base(x, &mut a);
     q_ef_seq(x, &mut a);
     q_ef_dict(x, &mut a);
     q_ef_succ(x, &mut a);
-});
+}, |s| Some(ef_sel_fields(s)));
 
 fn build_ef(form: &str, u: usize, vals: &[usize]) -> Option<Box<dyn Subject>> {
     let mut b = EliasFanoBuilder::new(vals.len(), u);
@@ -978,6 +1121,93 @@ where
 type S2 = [u64; 2];
 type S1 = [u64; 1];
 
+/// layer name and (field name, size in bytes) of the shard/edge structs, in declaration order; the
+/// fields are private and have no accessor: the values are read off the `Debug` rendering
+trait SeFlds: std::fmt::Debug {
+    const NAME: &'static str;
+    const FIELDS: &'static [(&'static str, usize)];
+    fn se_flds(&self) -> (String, String) {
+        let d = format!("{:?}", self);
+        let mut v = vec![];
+        for (name, size) in Self::FIELDS {
+            let pat = format!(" {}: ", name);
+            let i = d.find(&pat).expect("field in Debug rendering") + pat.len();
+            let n: String = d[i..].chars().take_while(|c| c.is_ascii_digit()).collect();
+            v.push(format!("u{}:{}", size, n));
+        }
+        (Self::NAME.into(), v.join(" "))
+    }
+}
+impl SeFlds for FuseLge3Shards {
+    const NAME: &'static str = "fuse3s";
+    const FIELDS: &'static [(&'static str, usize)] = &[("shard_bits_shift", 4), ("log2_seg_size", 4), ("l", 4)];
+}
+impl SeFlds for FuseLge3FullSigs {
+    const NAME: &'static str = "fuse3f";
+    const FIELDS: &'static [(&'static str, usize)] = &[("shard_bits_shift", 4), ("log2_seg_size", 4), ("l", 4)];
+}
+impl SeFlds for FuseLge3NoShards {
+    const NAME: &'static str = "fuse3n";
+    const FIELDS: &'static [(&'static str, usize)] = &[("log2_seg_size", 4), ("l", 4)];
+}
+// the MWHC logics have no Lean model: generic scalar layers
+#[cfg(feature = "mwhc")]
+impl SeFlds for Mwhc3Shards {
+    const NAME: &'static str = "u8+u4";
+    const FIELDS: &'static [(&'static str, usize)] = &[("seg_size", 8), ("shard_bits_shift", 4)];
+}
+#[cfg(feature = "mwhc")]
+impl SeFlds for Mwhc3NoShards {
+    const NAME: &'static str = "u8";
+    const FIELDS: &'static [(&'static str, usize)] = &[("seg_size", 8)];
+}
+
+/// the backend of a function: `Box<[W]>` or `BitFieldVec<W>`
+trait DataFlds {
+    fn dflds(&self) -> (String, String);
+}
+impl<W: Word + std::fmt::Display> DataFlds for Box<[W]> {
+    fn dflds(&self) -> (String, String) {
+        let wb = std::mem::size_of::<W>();
+        (format!("s{}", wb), format!("s{}:{}", wb, fmt_list(self.iter())))
+    }
+}
+impl<W: Word + std::fmt::Display, B: AsRef<[W]>> DataFlds for BitFieldVec<W, B> {
+    fn dflds(&self) -> (String, String) {
+        (format!("bfv{}", std::mem::size_of::<W>()), bfv_fields(self))
+    }
+}
+
+/// VFunc { shard_edge, seed, num_keys, data, PhantomData × 3 }
+fn vfunc_fields<T, W, D, S, E>(x: &VFunc<T, W, D, S, E>) -> (String, String)
+where
+    T: ToSig<S>,
+    W: epserde::traits::ZeroCopy + Word,
+    D: BitFieldSlice<W> + DataFlds,
+    S: Sig,
+    E: ShardEdge<S, 3> + SeFlds,
+{
+    let (e, seed, n, d) = x.verif_parts();
+    let (en, ef) = e.se_flds();
+    let (dn, df) = d.dflds();
+    (format!("{}+vfh+{}", en, dn), format!("{} u8:{} u8:{} {}", ef, seed, n, df))
+}
+
+/// VFilter { func, filter_mask: W, hash_bits: u32 }
+fn vfilter_fields<T, W, D, S, E>(x: &VFilter<W, VFunc<T, W, D, S, E>>) -> (String, String)
+where
+    T: ToSig<S>,
+    W: epserde::traits::ZeroCopy + Word + std::fmt::Display,
+    D: BitFieldSlice<W> + DataFlds,
+    S: Sig,
+    E: ShardEdge<S, 3> + SeFlds,
+{
+    let (f, m, h) = x.verif_parts();
+    let (fnm, ff) = vfunc_fields(f);
+    let wb = std::mem::size_of::<W>();
+    (format!("{}+u{}+u4", fnm, wb), format!("{} u{}:{} u4:{}", ff, wb, m, h))
+}
+
 /// sharding target of the builder: the default, except for the sharded MWHC logic, which with the
 /// default ε shards only beyond ten million keys
 fn eps_of(name: &str) -> f64 {
@@ -1001,9 +1231,9 @@ macro_rules! vfuncs {
     ($bf:ident, $bl:ident; $($name:literal, $t:ty, $w:ty, $d:ty, $s:ty, $e:ty, $fb:tt);*) => {
         $(
             subject!(VFunc<$t, $w, $d, $s, $e>, Vec<$t>, |x, k, a| { q_vfunc(x, k, &mut a) },
-                |_s| None, std::mem::size_of::<$w>() > 1);
+                |s| Some(vfunc_fields(s)), std::mem::size_of::<$w>() > 1);
             subject!(VFilter<$w, VFunc<$t, $w, $d, $s, $e>>, Vec<$t>, |x, k, a| { q_vfilter(x, k, &mut a) },
-                |_s| None, std::mem::size_of::<$w>() > 1);
+                |s| Some(vfilter_fields(s)), std::mem::size_of::<$w>() > 1);
         )*
         /// static function `name` over the key set (n, seed) with values below `vmax`
         fn $bf(name: &str, n: usize, seed: u64, vmax: u64) -> Option<Box<dyn Subject>> {
